@@ -201,7 +201,7 @@ package kv
 //@ end
 //@ func compactFlusher.afterAdd
 //@   prop C03
-//@   requires cf.compactJob != nil && cf.compactJob.state != nil && cf.compactJob.state.builder != nil
+//@   requires cf.compactJob != nil && cf.compactJob.state != nil && cf.compactJob.state.builder != nil && cf.compactJob.family != nil
 //@   modifies cf.compactJob.state.builder, cf.compactJob.state.outputs, any(table.Builder).finished
 //@   ensures[only_an_open_file_stays_the_output] result == nil ==> (cf.compactJob.state.builder == nil || cf.compactJob.state.builder == old(cf.compactJob.state.builder))
 //@ end
